@@ -8,6 +8,7 @@ import (
 	"encoding/base64"
 	"fmt"
 	"io"
+	"regexp"
 	"strconv"
 	"net"
 	"net/url"
@@ -39,6 +40,11 @@ type C19Case struct {
 	JSONLog    bool     `json:"json_log"`
 	// ProxyPlain: --proxy is given without userinfo; the upstream's password then comes from --credentials (second entry).
 	ProxyPlain bool `json:"proxy_plain,omitempty"`
+	// APIMode: the API server logs its requests in another mode than the proxy (--log-http=proxy:<m>,api:<m>)
+	APIMode string `json:"api_mode,omitempty"`
+	// OneCPU: the binary runs with GOMAXPROCS=1 (a one-CPU container): whatever the runtime shares between goroutines
+	// through per-CPU caches is handed over at once
+	OneCPU bool `json:"one_cpu,omitempty"`
 	// KeyForm: how inline key material is written: the documented data: forms, and other spellings of the scheme
 	// (the binary may refuse those; what it accepts it must redact).
 	KeyForm string `json:"key_form,omitempty"`
@@ -92,6 +98,13 @@ func genC19(t *rapid.T) C19Case {
 			c.KeyFlags = append(c.KeyFlags, k)
 		}
 	}
+	if rapid.IntRange(0, 2).Draw(t, "apimode") == 0 {
+		c.APIMode = rapid.SampledFrom([]string{"url", "short-url", "url", "none", "errors"}).Draw(t, "apimodev")
+		if rapid.Bool().Draw(t, "apimodeproxyerrors") {
+			c.LogHTTP = "errors" // the pairing in which one module dumps headers and the other must not
+		}
+	}
+	c.OneCPU = rapid.Bool().Draw(t, "onecpu")
 	if len(c.KeyFlags) > 0 {
 		c.KeyForm = rapid.SampledFrom([]string{"data:", "data:", "data:base64,", "data://", "DATA:", "Data:", "dAtA:base64,"}).Draw(t, "keyform")
 	}
@@ -253,7 +266,11 @@ func runC19(c C19Case) (fails []vstat.Failure) {
 	add("api-address", apiAddr)
 	add("proxy-localhost", "allow")
 	add("log-level", c.LogLevel)
-	add("log-http", c.LogHTTP)
+	if c.APIMode != "" {
+		add("log-http", "proxy:"+c.LogHTTP+",api:"+c.APIMode)
+	} else {
+		add("log-http", c.LogHTTP)
+	}
 	add("shutdown-timeout", "1s")
 	add("http-dial-attempts", "1")
 	if c.JSONLog {
@@ -350,6 +367,9 @@ func runC19(c C19Case) (fails []vstat.Failure) {
 		args = append(args, "--config-file="+cf)
 	}
 	cmd := exec.Command(e.bin, args...)
+	if c.OneCPU {
+		env = append(env, "GOMAXPROCS=1")
+	}
 	cmd.Env = env
 	var stdout, stderr lockedBuf
 	cmd.Stdout, cmd.Stderr = &stdout, &stderr
@@ -412,7 +432,9 @@ func runC19(c C19Case) (fails []vstat.Failure) {
 		}
 		return conn, bufio.NewReader(conn), nil
 	}
-	exchange := func(what, target string, withAuth bool) int {
+	var exchangePath func(what, target, path string, withAuth bool) int
+	exchange := func(what, target string, withAuth bool) int { return exchangePath(what, target, "/c19?q=1", withAuth) }
+	exchangePath = func(what, target, path string, withAuth bool) int {
 		conn, br, err := dialProxy()
 		if err != nil {
 			capture(what+" (dial error)", err.Error())
@@ -423,7 +445,7 @@ func runC19(c C19Case) (fails []vstat.Failure) {
 		if withAuth && c.BasicAuth != "" {
 			hdr = "Proxy-Authorization: Basic " + base64.StdEncoding.EncodeToString([]byte("bauser:"+c.BasicAuth)) + "\r\n"
 		}
-		fmt.Fprintf(conn, "GET http://%s/c19?q=1 HTTP/1.1\r\nHost: %s\r\n%sConnection: close\r\n\r\n", target, target, hdr)
+		fmt.Fprintf(conn, "GET http://%s%s HTTP/1.1\r\nHost: %s\r\n%sConnection: close\r\n\r\n", target, path, target, hdr)
 		m, err := ReadResponse(br, "GET")
 		if err != nil {
 			capture(what+" (read error)", err.Error())
@@ -447,8 +469,10 @@ func runC19(c C19Case) (fails []vstat.Failure) {
 			fails = append(fails, vstat.Failf("C19:functional", "unauthenticated request answered %d, want 407", s))
 		}
 	}
-	if c.LogHTTP != "errors" && c.ProxyPass == "" {
-		// an upstream failure (the request log of failed exchanges in 'errors' mode is outside the property)
+	if (c.LogHTTP != "errors" || c.APIMode != "") && !upstreamOn {
+		// an upstream failure. In 'errors' mode the proxy dumps the failed exchange with its headers: those dump lines are
+		// outside the property and are taken out of the log before it is scanned (see below); what the API server
+		// logs afterwards, in its own mode, is inside.
 		exchange("502 reply", FreeAddr("127.0.0.9"), true)
 	}
 	// further successful exchanges of other shapes
@@ -502,8 +526,17 @@ func runC19(c C19Case) (fails []vstat.Failure) {
 		conn.Close()
 		st.Class(fmt.Sprintf("extra-%s-%d", k, status))
 	}
+	if c.APIMode != "" && !upstreamOn {
+		// an exchange the origin itself answers 500 (in 'errors' mode the proxy dumps it - those lines are dropped below),
+		// directly followed by API requests logged in the API's own mode
+		exchangePath("500 from the origin", e.origin.Addr, "/c19/s500", true)
+	}
+	configzRounds := []bool{true, false}
+	if c.APIMode != "" {
+		configzRounds = []bool{true, true, true, false, true, true}
+	}
 	// /configz with and without credentials
-	for _, auth := range []bool{true, false} {
+	for _, auth := range configzRounds {
 		tc, err := Dial(apiAddr)
 		if err != nil {
 			continue
@@ -596,9 +629,31 @@ func runC19(c C19Case) (fails []vstat.Failure) {
 		collectLogs("")
 	}
 	for _, cp := range captured {
-		fails = append(fails, scanSecrets("C19:leak", cp.what, cp.text, secrets)...)
+		text := cp.text
+		if c.LogHTTP == "errors" && (strings.HasPrefix(cp.what, "stdout") || strings.HasPrefix(cp.what, "stderr") || strings.HasPrefix(cp.what, "log file")) {
+			text = dropFailedExchangeDumps(text)
+		}
+		fails = append(fails, scanSecrets("C19:leak", cp.what, text, secrets)...)
 	}
 	return fails
+}
+
+var (
+	failedDumpText = regexp.MustCompile(`msg="HTTP dump".*module=proxy.*response="5\d\d`)
+	failedDumpJSON = regexp.MustCompile(`"msg":"HTTP dump".*"module":"proxy".*"status_code":5\d\d`)
+)
+
+// dropFailedExchangeDumps removes the proxy module's request-log lines of exchanges answered >= 500: in 'errors' mode
+// they dump the message headers by design, which the property leaves out.
+func dropFailedExchangeDumps(log string) string {
+	var keep []string
+	for _, l := range strings.Split(log, "\n") {
+		if failedDumpText.MatchString(l) || failedDumpJSON.MatchString(l) {
+			continue
+		}
+		keep = append(keep, l)
+	}
+	return strings.Join(keep, "\n")
 }
 
 func firstLine(s string) string {
@@ -677,6 +732,12 @@ func classifyC19(c C19Case) (bool, string, []string) {
 	}
 	for _, k := range c.Extra {
 		cls = append(cls, "extra-"+k)
+	}
+	if c.APIMode != "" {
+		cls = append(cls, "api-log-mode-differs")
+	}
+	if c.OneCPU {
+		cls = append(cls, "one-cpu")
 	}
 	if c.KeyForm != "" {
 		cls = append(cls, "key-form-"+c.KeyForm)
